@@ -49,6 +49,7 @@ func c08Session(t *rapid.T) {
 		margs = append(margs, "--exact")
 	}
 	margs = append(margs, "--delimiter", ",")
+	startNth := rapid.SampledFrom([]string{"", "", "1", "2.."}).Draw(t, "startNth")
 	sessDirFifo := ""
 	// the input arrives through a FIFO that the harness feeds in bursts
 	fifoDir, err := os.MkdirTemp(workDir, "fifo")
@@ -71,7 +72,11 @@ func c08Session(t *rapid.T) {
 	sameLines := c08Lines("s-", n, 1)
 	os.WriteFile(sameFile, []byte(strings.Join(sameLines, "\n")+"\n"), 0o644)
 
-	s := StartSession(t, SessionCfg{Args: append([]string{"--no-mouse"}, margs...), InputCmd: "cat " + shQuote(sessDirFifo), Width: 70, Height: 20})
+	startArgs := append([]string{"--no-mouse"}, margs...)
+	if startNth != "" {
+		startArgs = append(startArgs, "--nth", startNth)
+	}
+	s := StartSession(t, SessionCfg{Args: startArgs, InputCmd: "cat " + shQuote(sessDirFifo), Width: 70, Height: 20})
 	defer s.Close()
 
 	// feeder
@@ -108,10 +113,10 @@ func c08Session(t *rapid.T) {
 	// model
 	query := ""
 	sortOn := true
-	nth := ""
+	nth := startNth
 	loaded := lines
 	excluded := map[string]bool{}
-	history := []string{fmt.Sprintf("fzf %s  (%d lines in %d bursts)", strings.Join(margs, " "), n, nbursts)}
+	history := []string{fmt.Sprintf("fzf %s  (%d lines in %d bursts)", strings.Join(startArgs, " "), n, nbursts)}
 	duringRead := false
 	labels := map[string]bool{}
 	reference := func() []string {
@@ -183,7 +188,7 @@ func c08Session(t *rapid.T) {
 	nsteps := rapid.IntRange(2, 14).Draw(t, "steps")
 	reloaded := false
 	for i := 0; i < nsteps; i++ {
-		op := rapid.SampledFrom([]string{"put", "put", "put", "backspace", "change-query", "clear", "toggle-sort", "exclude", "change-nth", "reload", "burst-of-edits", "settle"}).Draw(t, "op")
+		op := rapid.SampledFrom([]string{"put", "put", "put", "backspace", "change-query", "clear", "toggle-sort", "exclude", "change-nth", "change-nth", "reload", "burst-of-edits", "settle"}).Draw(t, "op")
 		delay := time.Duration(rapid.IntRange(0, 30).Draw(t, "delayMs")) * time.Millisecond
 		body := ""
 		switch op {
